@@ -74,7 +74,7 @@ func ParseDecimal(in string) (*Decimal, error) {
 		return nil, &ParseError{in, "empty string"}
 	}
 
-	exponent := int32(0)
+	exponent := int64(0)
 
 	d := strings.IndexAny(in, "Dd")
 	if d != -1 {
@@ -89,7 +89,7 @@ func ParseDecimal(in string) (*Decimal, error) {
 			return nil, &ParseError{in, err.Error()}
 		}
 
-		exponent = int32(tmp)
+		exponent = tmp
 		in = in[:d]
 	}
 
@@ -99,7 +99,10 @@ func ParseDecimal(in string) (*Decimal, error) {
 		ipart := in[:d]
 		fpart := in[d+1:]
 
-		exponent -= int32(len(fpart))
+		exponent -= int64(len(fpart))
+		if exponent < math.MinInt32 {
+			return nil, &ParseError{in, "exponent out of range"}
+		}
 		in = ipart + fpart
 	}
 
@@ -111,7 +114,7 @@ func ParseDecimal(in string) (*Decimal, error) {
 
 	isNegZero := n.Sign() == 0 && len(in) > 0 && in[0] == '-'
 
-	return NewDecimal(n, exponent, isNegZero), nil
+	return NewDecimal(n, int32(exponent), isNegZero), nil
 }
 
 // CoEx returns this decimal's coefficient and exponent.
